@@ -91,3 +91,10 @@ CHECKS.update({
          "text": "all legal histories of length <= 5 (solver, incl. one-shot queries and solving under assumptions) and 4 (scripts, incl. soft clauses with ids/weights, objectives, push/pop 0..2, reset) - Confirmed over all paths per first command",
          "note": "brute-force stub solver wired like the native ones; solver.assertions read once per history (every prefix is a history); longer histories outside the bound"},
 })
+
+CHECKS.update({
+ "C18": {"level": "model_checking", "engine": "XH",
+         "technique": "CrossHair over the constants of a finite-domain constraint system and the oracle's model choice: the real generic optimisation loops run over a brute-force solver and are compared with optima computed by reference enumeration; interval kernel with fully symbolic bounds",
+         "text": "per (goal kind, strategy, mixin, mode) every value of lo/hi/e/ylo/weights and both oracle behaviours explored (Confirmed over all paths): true optimum, lexicographic optimum, boxed optima, exact Pareto front, None iff unsat, assertion stack list and depth restored",
+         "note": "domains BV(2) (quick) / BV(3) (thorough) and Int in [-2,2]; oracle = exhaustive enumerator evaluated with the reference evaluator"},
+})
